@@ -30,6 +30,7 @@ type Config struct {
 	MaxPaths    int
 	StopOnFirst bool
 	MergeFuncs  map[string]bool // pure functions summarised by ITE-merging their paths
+	ExactReal   bool            // concrete float divisions that are inexact are kept as exact rationals
 }
 
 func (c *Config) initAllowed(path string) bool {
